@@ -222,6 +222,13 @@ def okFrom : PyDict Str Nat → List Step → Bool
 
 def ok (h : List Step) : Bool := okFrom [] h
 
+/-- diagnostics: index of the first rejected step and the expected map before it (`ok` ⇔ there is none:
+    `Props/C09.ok_iff_no_first_bad`) -/
+def firstBadFrom : PyDict Str Nat → List Step → Nat → Option (Nat × PyDict Str Nat)
+  | _, [], _ => none
+  | exp, s :: rest, i =>
+    if stepOk exp s then firstBadFrom (s.exch.foldl foldExch exp) rest (i + 1) else some (i, exp)
+
 end Upnp.C09
 
 namespace Upnp.C09
